@@ -61,26 +61,42 @@ def mode_numbers(chk):
     # hand-built alternative: arange(n) with the upper part shifted by -n; the split point must be ceil(n/2)
     ok = None
     why = f"mode numbers are built by `{src(v)}`: not a recognised construction"
-    if s.startswith("np.arange(nTheta"):
+    base, bv = "self._mVals", v
+    inner = v
+    if isinstance(inner, ast.Call) and isinstance(inner.func, ast.Attribute) and inner.func.attr == "astype":
+        inner = inner.func.value
+    if isinstance(inner, ast.Name):
+        ld = [n for n in fn.body if isinstance(n, ast.Assign) and src(n.targets[0]) == inner.id]
+        if len(ld) == 1:
+            base, bv = inner.id, ld[0].value
+    if src(bv).replace(" ", "").startswith("np.arange(nTheta"):
         shifts = [n for n in fn.body if isinstance(n, ast.AugAssign) and isinstance(n.target, ast.Subscript)
-                  and src(n.target.value) == "self._mVals" and isinstance(n.op, ast.Sub) and src(n.value) == "nTheta"]
-        if len(shifts) == 1 and isinstance(shifts[0].target.slice, ast.Slice) and shifts[0].target.slice.upper is None:
-            k = sp.Symbol("k", integer=True, positive=True)
-            lower = shifts[0].target.slice.lower
+                  and src(n.target.value) == base and isinstance(n.op, ast.Sub) and src(n.value) == "nTheta"]
+        lower = None
+        if len(shifts) == 1:
+            sl = shifts[0].target.slice
+            if isinstance(sl, ast.Slice) and sl.upper is None and sl.lower is not None:
+                lower = src(sl.lower)
+            elif isinstance(sl, ast.Compare) and len(sl.ops) == 1 and src(sl.left) == base:
+                # arange values equal their positions: a mask `base > T` shifts positions T+1.., `base >= T` positions T..
+                if isinstance(sl.ops[0], ast.Gt):
+                    lower = f"({src(sl.comparators[0])}) + 1"
+                elif isinstance(sl.ops[0], ast.GtE):
+                    lower = src(sl.comparators[0])
+        if lower is not None:
             try:
-                def K(nexpr):
-                    txt = src(lower).replace("nTheta", "(" + str(nexpr) + ")").replace("//", "//")
-                    return sp.sympify(txt.replace("//", "//"), locals={"k": k}, evaluate=True)
-                import re
-                def ev(nval):
-                    code = src(lower)
-                    return eval(code, {"__builtins__": {}}, {"nTheta": nval})
-                good = all(ev(n) == (n + 1) // 2 for n in range(1, 64))
-                ok = bool(good)
-                why = ("split point equals ceil(n/2) for both parities" if good else
-                       f"split point `{src(lower)}` differs from ceil(n/2) for odd counts: +m and -m of the top mode get different m")
+                code = compile(ast.parse(lower, mode="eval"), "<split>", "eval")
+                names = {n.id for n in ast.walk(ast.parse(lower, mode="eval")) if isinstance(n, ast.Name)}
+                if names - {"nTheta"} or any(isinstance(n, (ast.Call, ast.Attribute)) for n in ast.walk(ast.parse(lower, mode="eval"))):
+                    raise ValueError("not an integer expression of nTheta")
+                badn = [n for n in range(1, 64) if eval(code, {"__builtins__": {}}, {"nTheta": n}) != (n + 1) // 2]
+                ok = not badn
+                why = ("split point equals ceil(n/2) for both parities" if ok else
+                       f"the part shifted by -nTheta starts at `{lower}`, which differs from ceil(nTheta/2) for nTheta={badn[:4]}...: "
+                       "the top mode gets the opposite sign to the transform's numbering (np.fft.fftfreq), so Neumann lists naming it do not match "
+                       "and/or +m and -m are confused")
             except Exception as e:
-                why = f"split point `{src(lower)}` not evaluable: {e}"
+                why = f"split point `{lower}` not evaluable: {e}"
     chk.ob("F5-mode-numbers", defs[0], src(defs[0]), ok, why, file=U.POISSON, func="DiffEqSolver.__init__")
 
 
@@ -110,6 +126,77 @@ def lam(e):
             return fns[x.func.id](cv(x.args[0]))
         raise KeyError(src(x))
     return cv(e.body), r, fns, Bs
+
+
+def m0_operator(chk):
+    """the m=0 operator of the quasi-neutrality solver is the assembled operator, minus the adiabatic block for chi=1"""
+    from .C14 import operator_blocks, _sym, BLOCKS
+    fn = chk.func(U.POISSON, f"{QN}.__init__")
+    stiff = operator_blocks(chk)
+    defs = [n for n in ast.walk(fn) if isinstance(n, ast.Assign) and src(n.targets[0]) == "self._stiffness0"]
+    if stiff is None or not defs:
+        chk.ob("F5-m0-convention", fn, "chi -> m=0 operator", None, "definition of the theta-independent operator / of self._stiffness0 not found",
+               file=U.POISSON, func=f"{QN}.__init__")
+        return
+    kinetic = [n for n in fn.body if isinstance(n, ast.If) and src(n.test).replace("(", "").replace(")", "").replace(" ", "") == "notadiabaticElectrons"]
+
+    def vec(e, chi_val):
+        table = {}
+        ex = sp.expand(_sym(e, table))
+        if "chi" in table:
+            if chi_val is None:
+                raise KeyError("chi used outside the adiabatic branch")
+            ex = sp.expand(ex.subs(table["chi"], chi_val))
+        inv = {v: k for k, v in table.items()}
+        out = {}
+        for term in sp.Add.make_args(ex):
+            if term == 0:
+                continue
+            c_, syms = term.as_coeff_mul()
+            nm = inv.get(syms[0]) if len(syms) == 1 else None
+            if nm == "self._stiffnessMatrix":
+                for k, v in stiff.items():
+                    out[k] = out.get(k, 0) + c_ * v
+            elif nm in BLOCKS:
+                out[nm] = out.get(nm, 0) + c_
+            else:
+                raise KeyError(str(term))
+        return {k: v for k, v in out.items() if v != 0}
+
+    want = {0: dict(stiff), 1: {k: v for k, v in stiff.items() if k != "self._PhiPsi"}}
+    covered = set()
+    for d in defs:
+        in_kinetic = any(any(d is x for x in ast.walk(st)) for k in kinetic for st in k.body)
+        # chi values under which this assignment runs
+        g = parent(d)
+        vals = None
+        if isinstance(g, ast.If) and any(d is x for x in g.body):
+            t = src(g.test).replace("(", "").replace(")", "").replace(" ", "")
+            if t in ("chi==0", "chi==1"):
+                vals = [int(t[-1])]
+            elif t in ("0==chi", "1==chi"):
+                vals = [int(t[0])]
+        if in_kinetic:
+            cases = [("kinetic electrons", None, dict(stiff))]
+        else:
+            cases = [(f"chi={v}", v, want[v]) for v in (vals if vals is not None else [0, 1])]
+        for tag, cv, w in cases:
+            try:
+                got = vec(d.value, cv)
+                ok = got == w
+                covered.add(tag)
+                chk.ob("F5-m0-convention", d, f"m=0 operator for {tag}: {src(d.value)[:60]}", ok,
+                       ("the full theta-independent operator" if w == stiff else "the theta-independent operator without the adiabatic (C phi) "
+                        "block: the flux-surface average is subtracted") if ok else
+                       f"for {tag} the m=0 operator is {got}; the theta-independent operator is {stiff} and the m=0 operator must be {w}",
+                       file=U.POISSON, func=f"{QN}.__init__")
+            except KeyError as e:
+                chk.ob("F5-m0-convention", d, f"m=0 operator for {tag}: {src(d.value)[:60]}", None,
+                       f"not a combination of the assembled blocks ({e})", file=U.POISSON, func=f"{QN}.__init__")
+    raises = any(isinstance(n, ast.Raise) and "chi" in src(n) for n in ast.walk(fn))
+    okc = {"chi=0", "chi=1", "kinetic electrons"} <= covered and raises and "self._PhiPsi" in stiff
+    chk.ob("F5-m0-convention", fn, "chi in {0, 1} and kinetic electrons all define the m=0 operator; other chi refused", okc,
+           f"cases covered: {sorted(covered)}; refusal of other chi: {raises}", file=U.POISSON, func=f"{QN}.__init__", nontrivial=False)
 
 
 def qn_coefficients(chk):
@@ -163,18 +250,7 @@ def qn_coefficients(chk):
     chk.ob("F5-qn-coefficients", fn, "default profiles n0, Te, n0'/n0 from the constants", okd,
            "default profile functions receive the constants of the same name in their documented order" if okd else
            "default profile functions changed", file=U.POISSON, func=f"{QN}.__init__")
-    # chi convention
-    chis = {}
-    for n in ast.walk(fn):
-        if isinstance(n, ast.If) and src(n.test).replace("(", "").replace(")", "").replace(" ", "") in ("chi==0", "chi==1"):
-            for a in n.body:
-                if isinstance(a, ast.Assign) and src(a.targets[0]) == "self._stiffness0":
-                    chis[src(n.test).replace("(", "").replace(")", "").replace(" ", "")] = src(a.value).replace(" ", "")
-    raises = any(isinstance(n, ast.Raise) and "chi" in src(n) for n in ast.walk(fn))
-    ok = chis.get("chi==0") == "self._stiffnessMatrix" and chis.get("chi==1") in ("self._dPhidPsi+self._dPhiPsi", "self._dPhiPsi+self._dPhidPsi") and raises
-    chk.ob("F5-m0-convention", fn, "chi -> m=0 operator", ok,
-           "chi=0 keeps the full operator for m=0; chi=1 drops the adiabatic term (flux-surface average subtracted); other values refused"
-           if ok else f"m=0 operator selection is {chis}, refusal of other chi={raises}", file=U.POISSON, func=f"{QN}.__init__")
+    m0_operator(chk)
     se = chk.func(U.POISSON, f"{QN}.solveEquation")
     t = src(se).replace(" ", "").replace("\n", "")
     okm = "if(self._mVals[I]==0):stiffnessMatrix=self._stiffness0" in t.replace("ifself", "if(self").replace("==0:", "==0):") or \
